@@ -724,12 +724,49 @@ impl Property for StepProp {
         let mut r = Rng::new(seed ^ index.wrapping_mul(0xA24B_AED4_963E_E407)).fork(self.id);
         let mut p = Profile::base(*r.pick(self.focus));
         (self.tune)(&mut p, &mut r);
-        gen::trace(self.id, seed, index, &p)
+        let mut t = gen::trace(self.id, seed, index, &p);
+        if self.id == "C16" && t.bytes_total() <= 40 && r.chance(1, 4) {
+            // fault-point enumeration: one more resize at EVERY operation boundary of this history
+            let g = gen::Geo { cols: t.columns, lines: t.lines };
+            let (l, c) = gen::resize_target(&mut r, g, g);
+            t.extra = vec![u32::MAX, l, c];
+        }
+        t
     }
     fn check(&self, trace: &Trace, cov: &mut Coverage) -> Result<(), Violation> {
+        // C16: an extra resize injected at one (extra = [1,k,l,c]) or at every (extra = [MAX,l,c])
+        // operation boundary
+        let one: Vec<(u64, Op)> = match trace.extra.as_slice() {
+            [1, k, l, c] if *l >= 1 && *c >= 1 => vec![(*k as u64, Op::Resize(Some(*l), Some(*c)))],
+            _ => vec![],
+        };
         let mut obs = StepObs { sp: self, cov, judged: 0, twin: None, twin_prev: None, parser_events: vec![], shadow: vec![] };
-        let stats = exec::run(trace, &mut obs)?;
+        let stats = exec::run_q_inject(trace, &mut obs, &one).map(|x| x.0)?;
         let judged = obs.judged;
+        if let [u32::MAX, l, c] = trace.extra.as_slice() {
+            if *l >= 1 && *c >= 1 {
+                for k in 0..=stats.own_ops.min(48) {
+                    let inj = vec![(k, Op::Resize(Some(*l), Some(*c)))];
+                    let mut scratch = Coverage::default();
+                    let mut o2 = StepObs {
+                        sp: self,
+                        cov: &mut scratch,
+                        judged: 0,
+                        twin: None,
+                        twin_prev: None,
+                        parser_events: vec![],
+                        shadow: vec![],
+                    };
+                    obs.cov.hit("resize_positions_enumerated");
+                    exec::run_q_inject(trace, &mut o2, &inj).map(|x| x.0).map_err(|mut v| {
+                        let mut t = trace.clone();
+                        t.extra = vec![1, k as u32, *l, *c];
+                        v.concrete = Some(Box::new(t));
+                        v
+                    })?;
+                }
+            }
+        }
         let delivered = std::mem::take(&mut obs.parser_events);
         parser_path(self.id, trace, &delivered, self.owns, cov)?;
         cov.add("atomic_steps", stats.ops);
